@@ -5,4 +5,7 @@ def run(eng, lib, name, tier="quick"):
     if name == "homcheck":
         from vc import homcheck
         return homcheck.run(eng, tier)
+    if name == "shard":
+        from props import shard
+        return shard.run(eng, lib, tier)
     raise RuntimeError(f"unknown special job {name}")
